@@ -139,7 +139,7 @@ func TestC18_position(t *testing.T) {
 	t.Cleanup(r.Flush)
 	rapid.Check(t, func(rt *rapid.T) {
 		r.Guard(func() {
-			cfg := genVCfg(rt, "C18")
+			cfg := genVCfg(rt, "C18", false)
 			cfg.NUsers = 2
 			cs := &c18PosCase{Cfg: cfg}
 			// a non-stable product with a stability fee, on an app with interest switched on
